@@ -768,6 +768,7 @@ fn run_parallel<T: Sync, R: Send>(items: &[T], f: &(dyn Fn(&T) -> R + Sync)) -> 
 
 /// Iterated-depth exploration of all seeds under the per-class node budget.
 pub fn explore(walk: &Walk, seeds: &[Seed], budget: &Budget) -> Outcome {
+    super::searchrun::quiet_panics();
     let mut total = Stats::default();
     let mut per_seed: Vec<SeedResult> = seeds
         .iter()
@@ -800,11 +801,28 @@ pub fn explore(walk: &Walk, seeds: &[Seed], budget: &Budget) -> Outcome {
                 depth,
             })
             .collect();
+        // an engine panic on a valid position is a violation of the property being checked,
+        // reported with the task (seed + path prefix) that hit it - never a crash of the check
+        let guarded = |t: &Task, emit: Option<(u32, &Mutex<Vec<Task>>)>| -> Result<Stats, String> {
+            match std::panic::catch_unwind(std::panic::AssertUnwindSafe(|| walk.run_task(seeds, t, emit))) {
+                Ok(r) => r,
+                Err(_) => {
+                    let sd = &seeds[t.seed_idx];
+                    let msg = super::searchrun::last_panic();
+                    walk.sink.report(
+                        format!("panic|{}|{}", sd.name, msg.lines().next().unwrap_or("")),
+                        format!("the engine panicked while exploring seed {} ({} [{}]) below {:?} to depth {}: {}", sd.name, sd.fen, sd.prefix.join(" "), t.moves, t.depth, msg.replace('\n', " ")),
+                        obj(vec![("kind", s("path")), ("seed", s(sd.name.clone())), ("fen", s(sd.fen.clone())), ("prefix", arr_s(&sd.prefix)), ("moves", arr_s(&t.moves)), ("subtree_depth", super::report::i(t.depth))]),
+                    );
+                    Ok(Stats::default())
+                }
+            }
+        };
         let stats_a = run_parallel(&roots, &|t: &Task| {
             if split == 0 {
-                walk.run_task(seeds, t, None)
+                guarded(t, None)
             } else {
-                walk.run_task(seeds, t, Some((split, &queue)))
+                guarded(t, Some((split, &queue)))
             }
         });
         let mut round: HashMap<usize, Stats> = HashMap::new();
@@ -817,7 +835,7 @@ pub fn explore(walk: &Walk, seeds: &[Seed], budget: &Budget) -> Outcome {
         let mut sub = queue.into_inner().unwrap();
         // biggest seeds first for better load balance
         sub.sort_by_key(|t| (t.seed_idx, t.moves.clone()));
-        let stats_b = run_parallel(&sub, &|t: &Task| walk.run_task(seeds, t, None));
+        let stats_b = run_parallel(&sub, &|t: &Task| guarded(t, None));
         for (t, r) in sub.iter().zip(stats_b) {
             match r {
                 Ok(st) => round.entry(t.seed_idx).or_default().add(&st),
